@@ -31,6 +31,45 @@ pub struct ExWaker(std::task::Waker);
 //@ item src/sources/futures.rs / struct ExecutorDestroyed props=C10
 //@ enditem
 
+//@ item src/sources/futures.rs / impl Scheduler<T> / fn schedule / struct StoreOnDrop props=C10
+//@ pre
+#[verifier::reject_recursive_types(T)]
+//@ enditem
+
+impl<'a, T> StoreOnDrop<'a, T> {
+//@ slice src/sources/futures.rs / impl Scheduler<T> / fn schedule / impl Drop for StoreOnDrop<'_, T> / fn drop :: body props=C10 name=StoreOnDrop::drop
+//@ rw R10 * <<self.state.active_tasks.borrow_mut()>> => <<tasks_cell>>
+//@ rw R21 * <<self.value.take()>> => <<slf.value.take()>>
+//@ rw R27 1 <<active_tasks[self.index] = Active::Finished(value);>> => <<active_tasks.set(slf.index, Active::Finished(value));>>
+//@ rw R21 * <<active_tasks.remove(self.index);>> => <<active_tasks.remove(slf.index);>>
+//@ sig
+    /// S1 slice: the whole body of `impl Drop for StoreOnDrop` (a type declared inside Scheduler::schedule: the guard the
+    /// wrapping future holds; it runs when the task's future has produced its value or is dropped unfinished), as an ordinary
+    /// function. R21: the receiver is `slf`; R10: the borrow of the task-table cell becomes `tasks_cell`; R27: the indexed
+    /// assignment `table[key] = v` (slab's IndexMut, which Verus cannot model) becomes the stand-in `set(key, v)` with the
+    /// same panic condition as precondition.
+    fn store_on_drop_body(slf: &mut StoreOnDrop<'a, T>, tasks_cell: &mut Option<Slab<Active<T>>>)
+//@ spec
+        requires
+            // the task's entry is in the table as long as the table exists (inserted by schedule::tail under this very key --
+            // see Scheduler::schedule::head --, taken out only by this function or after it: cross-call history, assumed here)
+            *old(tasks_cell) matches Some(tab) ==> tab@.dom().contains(old(slf).index),
+        ensures
+            match *old(tasks_cell) {
+                // the executor is gone: nothing to store into (the value is dropped with the guard)
+                None => *final(tasks_cell) is None,
+                Some(tab) => match old(slf).value {
+                    // C10 (result hand-over, exactly once): the finished future's value is stored under the task's OWN key,
+                    // no other entry changes, and the guard no longer holds it
+                    Some(v) => *final(tasks_cell) matches Some(t2) && t2@ == tab@.insert(old(slf).index, Active::Finished(v)) && final(slf).value is None,
+                    // dropped before it finished: its entry leaves the table, no other entry changes
+                    None => *final(tasks_cell) matches Some(t2) && t2@ == tab@.remove(old(slf).index),
+                },
+            },
+            final(slf).index == old(slf).index,
+//@ endslice
+}
+
 impl<T> Scheduler<T> {
 //@ slice src/sources/futures.rs / impl Scheduler<T> / fn schedule :: stmts <<let mut active_guard = self.state.active_tasks.borrow_mut();>> .. <<let index =>> props=C10 name=Scheduler::schedule::head
 //@ rw R10 * <<self.state.active_tasks.borrow_mut()>> => <<tasks_cell>>
